@@ -71,7 +71,9 @@ def run(ctx: Ctx) -> None:
         rng.shuffle(cases)
         cases = cases[:1500]
     ctx.exhaustive = len(cases) == len(seen)
-    jobs = [(b, str(ctx.work / "sut" / f"w{n % 64}"), f"{ctx.seed}x{n}") for n, b in enumerate(cases)]
+    # every third schedule runs on the TypeTracingTestCaseExecutor (the executor of the generator when
+    # type tracing is on: terminating test cases are executed twice, timed-out ones must not be)
+    jobs = [(b, str(ctx.work / "sut" / f"w{n % 64}"), f"{ctx.seed}x{n}", n % 3 == 2) for n, b in enumerate(cases)]
     results = parallel_map(_run, jobs, procs=12, chunksize=4)
     traces = [{"ev": r["ev"]} for r in results]
     ctx.evaluations = len(traces)
@@ -90,9 +92,11 @@ def run(ctx: Ctx) -> None:
                 continue
             ctx.bad(clause, signature(clause, ev),
                     f"test {ev['i']} prog {ev['prog']}: timeout={ev['timeout']} lines={ev['lines']} own={ev['own']} "
-                    f"pred_lines={ev['pred_lines']} exc={ev['exc']} elapsed_ms={ev['elapsed_ms']} {ev['error']}",
-                    trace=traces[idx], behaviour=cases[idx])
+                    f"pred_lines={ev['pred_lines']} exc={ev['exc']} elapsed_ms={ev['elapsed_ms']} starts={ev['starts']} "
+                    f"type_tracing={ev['type_tracing']} {ev['error']}",
+                    trace=traces[idx], behaviour=dict(cases[idx], type_tracing=ev["type_tracing"]))
     ctx.notes["drift_count"] = len(ctx.drift)
+    ctx.notes["schedules_on_type_tracing_executor"] = sum(1 for j in jobs if j[3])
     for b, t in list(zip(cases, traces))[:3]:
         ctx.sample({"schedule": et.skeleton(b), "results": [
             {k: e[k] for k in ("i", "prog", "timeout", "lines", "exc", "elapsed_ms")} for e in t["ev"]]})
@@ -100,7 +104,7 @@ def run(ctx: Ctx) -> None:
 
 def replay(ctx: Ctx, rec: dict) -> int:
     sys.path.insert(0, str(SPEC.parent / "harness" / "sut"))
-    r = _run((rec["behaviour"], str(ctx.work / "sut"), "replay"))
+    r = _run((rec["behaviour"], str(ctx.work / "sut"), "replay", bool(rec["behaviour"].get("type_tracing"))))
     print(json.dumps(r, indent=1))
     v = ctx.validate("ExecutorTrace", [{"ev": r["ev"]}])
     bad = [c for c, _ in v.get(0, []) if not c.startswith("Conform")]
